@@ -134,7 +134,10 @@ def py_activity(R, activation, z, a, mass, fl, cd, fr, t, rests):
 
 def _oracle_job(job):
     f, a, mass, fl, cd, fr, t = job
-    v = O.chain_activity(f, a, mass, fl, cd, fr, t)
+    try:
+        v = O.chain_activity(f, a, mass, fl, cd, fr, t)
+    except Exception:  # noqa  (e.g. a tabulated half-life of 0: the chain is not defined)
+        return "undefined"
     return None if v is None else str(v)
 
 
@@ -154,6 +157,13 @@ class Pool:
 
 def condition(f, a, mass, fl, cd, fr, t):
     """the class of input a violation falls in (key of the known findings)"""
+    try:
+        return _condition(f, a, mass, fl, cd, fr, t)
+    except Exception:  # noqa
+        return "none"
+
+
+def _condition(f, a, mass, fl, cd, fr, t):
     q = O.rates(f, a, mass, fl, cd, fr)
     if q is None:
         return "omitted"
@@ -252,21 +262,22 @@ def oracle_case(run, R, case, py, wants, activation):
     inp = dict(stream=stream, z=z, a=a, mass=mass, fluence=fl, Cd_ratio=cd, fast_ratio=fr,
                exposure=t, rest_times=list(rests))
 
-    def viol(what, i, **kw):
+    def viol(what, i, clause, **kw):
         f = R.fields(i)
         run.violation(what, dict(inp, row=i, isotope=f["isotope"], daughter=f["daughter"],
                                  reaction_text=f["reaction_text"], **kw),
-                      reaction=f["reaction"], condition=condition(f, a, mass, fl, cd, fr, t))
+                      reaction=f["reaction"], clause=clause, condition=condition(f, a, mass, fl, cd, fr, t))
 
     if py[0] == "err":
         # which row is to blame is not observable from outside; name the first row that is kept
         # (an ill-conditioned '2n' / 'b' row if there is one)
         kept = [i for i, w in wants if w is not None] or [wants[0][0]]
+        kept = [i for i, w in wants if w == "undefined"] or kept
         conds = [(condition(R.fields(i), a, mass, fl, cd, fr, t), i) for i in kept]
         cond, blame = next(((c, i) for c, i in conds if c != "none"), conds[0])
         run.violation("activity() raised %s for physical inputs" % py[1],
                       dict(inp, row=blame, error=py[1]),
-                      reaction=R.fields(blame)["reaction"], error=py[1], condition=cond)
+                      reaction=R.fields(blame)["reaction"], error=py[1], clause="error", condition=cond)
         return
     res = py[1]
     # fast / omission clause and value clause
@@ -274,21 +285,24 @@ def oracle_case(run, R, case, py, wants, activation):
         f = R.fields(i)
         if w is None:
             if i in res:
-                viol("fast reaction is not omitted although the fast ratio is 0", i)
+                viol("fast reaction is not omitted although the fast ratio is 0", i, "fast")
             continue
         if i not in res:
-            viol("reaction row is missing from the result", i)
+            viol("reaction row is missing from the result", i, "fast")
+            continue
+        if w == "undefined":
+            viol("the tabulated data of this row define no reaction chain (half-life 0?)", i, "data")
             continue
         want0 = D(w)
         for tj, got in zip(rests, res[i]):
             want = want0 * O.rest_factor(f, tj)
             if got < 0:
-                viol("negative activity", i, got=got, expected=float(want), rest=tj)
+                viol("negative activity", i, "sign", got=got, expected=float(want), rest=tj)
                 break
             if abs(float(want)) < FLOOR and abs(got) < FLOOR:
                 continue
             if O.relerr(got, want) > ORACLE_REL:
-                viol("activity differs from the solution of the reaction chain", i,
+                viol("activity differs from the solution of the reaction chain", i, "value",
                      got=got, expected=float(want), rest=tj, relerr=O.relerr(got, want))
                 break
     # metamorphic clauses on the real code (second calls)
@@ -296,12 +310,12 @@ def oracle_case(run, R, case, py, wants, activation):
     py2 = py_activity(R, activation, z, a, mass * k, fl, cd, fr, t, rests)
     if py2[0] != "ok":
         run.violation("activity() raised %s at 3x the mass" % py2[1], inp, error=py2[1],
-                      reaction="act", condition="none")
+                      reaction="act", clause="mass", condition="none")
     else:
         for i, v in res.items():
             v2 = py2[1].get(i)
             if v2 is None or any(not close(x * k, y, rel=1e-12, abs_=FLOOR) for x, y in zip(v, v2)):
-                viol("activity is not proportional to the sample mass", i, mass_factor=k, got=v2, base=v)
+                viol("activity is not proportional to the sample mass", i, "mass", mass_factor=k, got=v2, base=v)
     t2 = min(t * 1.5, AC.EXPOSURE[1] * 1.0000001) if t < AC.EXPOSURE[1] else t
     if t2 > t:
         p0 = py_activity(R, activation, z, a, mass, fl, cd, fr, t, (0.0,))
@@ -313,12 +327,14 @@ def oracle_case(run, R, case, py, wants, activation):
                     continue
                 a0, a2 = v[0], p2[1][i][0]
                 dep = math.exp(-burn_rate(f, fl, cd, fr) * (t2 - t)) if f["reaction"] != "b" else 1.0
+                if f["Thalf_hrs"] <= 0:
+                    continue
                 if a2 < a0 * dep * (1 - 1e-9) - FLOOR:
-                    viol("activity decreases with exposure by more than the depletion of the target", i,
+                    viol("activity decreases with exposure by more than the depletion of the target", i, "exposure",
                          exposure2=t2, activity=a0, activity2=a2, depletion=dep)
         elif p2[0] != "ok":
             run.violation("activity() raised %s at a longer exposure" % p2[1], dict(inp, exposure=t2),
-                          error=p2[1], reaction="act", condition="none")
+                          error=p2[1], reaction="act", clause="exposure", condition="none")
     # rest decay relative to the code's own value at removal
     p0 = py_activity(R, activation, z, a, mass, fl, cd, fr, t, (0.0,))
     if p0[0] == "ok":
@@ -327,12 +343,14 @@ def oracle_case(run, R, case, py, wants, activation):
                 continue
             f = R.fields(i)
             a0 = p0[1][i][0]
+            if f["Thalf_hrs"] <= 0:
+                continue
             for tj, got in zip(rests, v):
                 want = O.dec(a0) * O.rest_factor(f, tj)
                 if abs(float(want)) < FLOOR and abs(got) < FLOOR:
                     continue
                 if O.relerr(got, want) > 1e-9:
-                    viol("activity after a rest time is not A(0)*2^(-t/T_half)", i, rest=tj, got=got,
+                    viol("activity after a rest time is not A(0)*2^(-t/T_half)", i, "rest", rest=tj, got=got,
                          expected=float(want))
                     break
     # epithermal omission: below a Cd ratio of 1 the result is that of Cd ratio 0
@@ -341,7 +359,7 @@ def oracle_case(run, R, case, py, wants, activation):
         if pz != py:
             for i in res:
                 if pz[0] != "ok" or pz[1].get(i) != res[i]:
-                    viol("epithermal capture is not omitted for a cadmium ratio below 1", i)
+                    viol("epithermal capture is not omitted for a cadmium ratio below 1", i, "epithermal")
                     break
 
 
@@ -379,7 +397,7 @@ def loader_sweep(run: Run, R):
         if obj is None:
             run.disagree("loader", dict(row=i, what="row not attached to the isotope", key=key), g, None)
             run.violation("activation.dat row is not served by isotope.neutron_activation",
-                          dict(row=i, key=key), reaction=f["reaction"], condition="loader")
+                          dict(row=i, key=key), reaction=f["reaction"], clause="data", condition="loader")
             continue
         code = dict(z=obj.Z, a=obj.A, fast=obj.fast,
                     reaction=obj.reaction if obj.reaction in ("b", "2n") else "act")
@@ -392,7 +410,24 @@ def loader_sweep(run: Run, R):
                 if not close(code[n], f[n], rel=1e-15):
                     run.violation("record field %s differs from activation.dat" % n,
                                   dict(row=i, key=key, field=n, got=code[n], expected=f[n]),
-                                  reaction=f["reaction"], condition="loader")
+                                  reaction=f["reaction"], clause="data", condition="loader")
+
+
+# --------------------------------------------------------------------------- expm1 of the Float instance
+
+def expm1_sweep(run: Run, n):
+    """the model's `expm1` at Float (Kahan's formula over exp/log) against math.expm1"""
+    xs = [0.0, -0.0, 1e-320, -1e-320, 1e-17, -1e-17, 1.0, -1.0, -745.0, -800.0, 700.0, 1e-8, -1e-8]
+    for _ in range(n):
+        m = AC.logu(run.rng, 1e-300, 700.0)
+        xs.append(m if run.rng.random() < 0.3 else -m)
+    reps = run_driver("activation", ["expm1 " + f2h(x) for x in xs])
+    for x, rep in zip(xs, reps):
+        got = h2f(rep.split()[1])
+        want = math.expm1(x)
+        run.count(key="expm1:%r" % x, nontrivial=abs(x) < 0.5, tag="expm1")
+        if not close(got, want, rel=1e-14, abs_=0.0):
+            run.disagree("expm1", dict(x=x), got, want)
 
 
 # --------------------------------------------------------------------------- samples
@@ -440,6 +475,11 @@ def check_samples(run: Run, R, n, activation):
             else:
                 parts.append((frac, [(el.number, i, fn(el[i])) for i in el.isotopes]))
         try:
+            if run.rng.random() < 0.5:
+                # the same Sample object was used before, with another environment and rest list:
+                # a second calculation must start from scratch
+                s.calculate_activation(activation.ActivationEnvironment(fluence=fl * 3, Cd_ratio=2.0, fast_ratio=7.0),
+                                       exposure=t * 0.5, rest_times=[0.0, 5.0, 9.0], abundance=fn)
             s.calculate_activation(env, exposure=t, rest_times=rests, abundance=fn)
             py = ("ok", [(R.index_of[id(k)], list(v)) for k, v in s.activity.items()],
                   [(R.index_of[id(k)], v) for k, v in getattr(s, "_activity_at_removal", {}).items()])
@@ -460,12 +500,12 @@ def check_samples(run: Run, R, n, activation):
                 run.disagree("calculate_activation", inp, rep, py[:1])
             if py[0] == "err":
                 run.violation("calculate_activation raised %s" % py[1], inp, error=py[1],
-                              reaction="act", condition="none")
+                              reaction="act", clause="natural", condition="none")
             continue
         if py[0] == "err":
             run.disagree("calculate_activation", inp, "ok", py)
             run.violation("calculate_activation raised %s" % py[1], inp, error=py[1],
-                          reaction="act", condition="none")
+                          reaction="act", clause="natural", condition="none")
             continue
         mtab = AC.parse_tally(tab, len(rests))
         mrem = AC.parse_tally(rem, 1)
@@ -496,13 +536,13 @@ def check_samples(run: Run, R, n, activation):
             got = dict(py[1])
             if set(got) != set(expect):
                 run.violation("sample activity lists other products than its isotopes give", inp,
-                              reaction="act", condition="none")
+                              reaction="act", clause="natural", condition="none")
             else:
                 for i, v in got.items():
                     if any(not close(x, float(e), rel=1e-12, abs_=FLOOR) for x, e in zip(v, expect[i])):
                         run.violation("natural element is not the abundance-weighted sum of its isotopes",
                                       dict(inp, row=i, got=v, expected=[float(e) for e in expect[i]]),
-                                      reaction=R.fields(i)["reaction"], condition="none")
+                                      reaction=R.fields(i)["reaction"], clause="natural", condition="none")
                         break
 
 
@@ -516,6 +556,7 @@ def run(run: Run) -> int:
     pool = Pool()
     try:
         loader_sweep(run, R)
+        expm1_sweep(run, 2000)
         quick = run.tier == "quick"
         cases = corpus_cases() + grid_cases(R, run.tier)
         cases += resonance_cases(R, run.rng, 2 if quick else 12)
